@@ -176,23 +176,102 @@ def logical_lines(chunk: bytes) -> int:
     return n
 
 
+class _SieveResp:
+    def __init__(self, kind, cond, end, code=None):
+        self.kind = kind          # 'tagged' (OK/NO/BYE completion) | 'untagged' (data line)
+        self.cond = cond
+        self.end = end
+        self.code = code
+
+
+def sieve_parse_one(data: bytes, pos: int):
+    """strict RFC 5804 server response line: OK/NO/BYE [SP (code)] [SP string] CRLF, or a
+    data line: string *(SP (string / atom)) CRLF"""
+    s = rp._S(data, pos)
+    c = s.peek()
+    if c in (0x22, 0x7b):
+        s.string()
+        while s.peek() == 0x20:
+            s.sp()
+            if s.peek() in (0x22, 0x7b):
+                s.string()
+            else:
+                s.atom()
+        s.crlf()
+        return _SieveResp('untagged', None, s.i)
+    word = s.atom().upper()
+    if word not in (b'OK', b'NO', b'BYE'):
+        raise rp.Malformed(pos, f'unknown ManageSieve response {word!r}')
+    code = None
+    if s.peek() == 0x20:
+        s.sp()
+        if s.peek() == 0x28:
+            s.lit(b'(')
+            j = s.i
+            depth = 1
+            while depth:
+                ch = s.peek()
+                if ch in (0x0d, 0x0a):
+                    raise rp.Malformed(s.i, 'line break inside response code')
+                if ch in (0x22, 0x7b):
+                    s.string()
+                    continue
+                if ch == 0x28:
+                    depth += 1
+                elif ch == 0x29:
+                    depth -= 1
+                s.i += 1
+            code = bytes(data[j:s.i - 1])
+            if s.peek() == 0x20:
+                s.sp()
+                s.string()
+        else:
+            s.string()
+    s.crlf()
+    return _SieveResp('tagged', word, s.i, code)
+
+
 class Transcript:
     """events of one connection for Trace_Total"""
 
-    def __init__(self):
+    def __init__(self, service: str = 'imap'):
         self.events = []
         self.off = 0
         self.malformed = None
+        self.service = service
 
     def absorb(self, conn) -> list:
         data = bytes(conn.writer.out)
         got = []
         while self.off < len(data):
             try:
+                if self.service == 'sieve':
+                    r = sieve_parse_one(data, self.off)
+                    self.off = r.end
+                    got.append(r)
+                    if r.kind == 'tagged':
+                        if r.cond == b'BYE':
+                            self.events.append({'e': 'bye', 'serverbug': False})
+                            self.events.append({'e': 'tagged', 'cond': 'BYE'})
+                        else:
+                            self.events.append({'e': 'tagged', 'cond': r.cond.decode()})
+                    continue
                 r = rp.parse_one(data, self.off)
             except rp.Incomplete:
                 break
             except rp.Malformed as exc:
+                if self.service == 'sieve':
+                    # C07 is about IMAP responses; for the response obligation count the
+                    # completions line-wise and go on
+                    rest = data[self.off:]
+                    for ln in rest.split(b'\r\n'):
+                        w0 = ln.split(b' ')[0].upper()
+                        if w0 in (b'OK', b'NO', b'BYE'):
+                            if w0 == b'BYE':
+                                self.events.append({'e': 'bye', 'serverbug': False})
+                            self.events.append({'e': 'tagged', 'cond': w0.decode()})
+                    self.off = len(data)
+                    break
                 self.malformed = (exc.pos, exc.why, data[max(0, exc.pos - 60):exc.pos + 60])
                 self.events.append({'e': 'malformed', 'why': exc.why[:200]})
                 self.off = len(data)
@@ -235,7 +314,7 @@ def prepare(w: World, name: str, state: str, service: str = 'imap'):
 def run_line(w: World, state: str, chunks: list, *, service: str = 'imap', name: str = 'a',
              repeat: int = 1, tagfmt=b'T%d'):
     """One connection: bring it to `state`, send the chunks (repeat times), record."""
-    tr = Transcript()
+    tr = Transcript(service)
     c = prepare(w, name, state, service)
     tr.off = len(c.writer.out)
     hang = False
